@@ -29,4 +29,18 @@ PROPS["C16"] = dict(
     trusted=["verif hook VerifNewReplayWindow / Check (dtlcp)"],
 )
 
+PROPS["C17"] = dict(
+    technique="Coq proofs on a byte-faithful model of fragmentBuffer (bitmask as bytes), the readHandshake fragment path and the sender split: coverage invariant, any-order reassembly, tiling; vm_compute correspondence at buffer, receiver, sender and handshake level",
+    level_text="Theorems for every fragment set / order / overlap / duplication and every payload limit (complete iff covered, assembled = message, "
+               "transcript form, overflow rejected, bounded pending state) proved in Coq; the model and an independent reference reassembler are "
+               "evaluated in Coq on what the Go buffer, readHandshake, writeHandshakeRecord did; full handshakes are run with independent PMTU values.",
+    level_note="Trusted: Coq kernel + vm_compute; hand-written model tied by correspondence; time-based stale-buffer cleanup and the record layer "
+               "beneath readHandshake are not in this model (C15/C09 cover the record layer).",
+    code_names={1: "complete-disagrees-with-coverage", 2: "assembled-differs-from-message", 3: "fragment-range-check-wrong",
+                4: "reassembled-stream-differs-from-reference", 6: "sender-fragments-do-not-tile", 7: "handshake-record-exceeds-pmtu",
+                8: "transcript-not-unfragmented-form", 9: "handshake-depends-on-pmtu", "panic": "panic"},
+    assumptions=["fragments reach readHandshake as whole handshake fragments (record layer delivers handBuf bytes in order)"],
+    trusted=["verif hooks VerifNewFragBuf, VerifReadHandshakes, VerifWriteHandshake (dtlcp)", "virtual-time network tk.VNet for the PMTU-pair runs"],
+)
+
 NOT_YET = {}
